@@ -205,7 +205,12 @@ Definition step : P (option event) :=
   | None => pret None
   | Some ps =>
     e <~ (match ps with
-    | PStreamStart => t <~ get_tok ;; set_ps (Some PImplicitDocStart) ;;~ pret (mk VStreamStart (t_start t) (t_end t))
+    | PStreamStart =>
+        t <~ get_tok ;;
+        match t_kind t with
+        | TStreamStart => set_ps (Some PImplicitDocStart) ;;~ pret (mk VStreamStart (t_start t) (t_end t))
+        | _ => pcrash                     (* token.encoding: AttributeError on any other token class *)
+        end
     | PImplicitDocStart =>
         b <~ check (fun k => is_directive k || any_of [TDocStart; TStreamEnd] k) ;;
         if negb b then
@@ -346,4 +351,5 @@ Fixpoint parse_loop (fuel : nat) (acc : list event) (s : pst) : list event * res
   end.
 Definition pinit (ts : list token) : pst :=
   {| toks := ts; pstate_ := Some PStreamStart; pstates := []; pmarks := []; handles := []; version_ := None |}.
-Definition parse_all (ts : list token) : list event * res unit := parse_loop (4 * length ts + 16) [] (pinit ts).
+(* fuel: Proofs/ParserTerm.v shows that 8 per token (+16) is never exhausted on a well-delimited token list *)
+Definition parse_all (ts : list token) : list event * res unit := parse_loop (8 * length ts + 16) [] (pinit ts).
